@@ -266,6 +266,47 @@ def run_partition(ctx):
             r.fail('%s:special-too-wide:%s%s' % (key, t, x), W(run), '%s takes a lone %r even when it is followed by %r: the opening %r of a sibling is swallowed' % (run.name, t, x, t + x))
         for x in sorted(ex - want):
             r.fail('%s:special-too-narrow:%s%s' % (key, t, x), W(run), '%s refuses %r before %r although no sibling starts with %r: that text is rejected' % (run.name, t, x, t + x))
+    # the escaped-identifier sibling ends only at white space (5.6.1): anything else it stops at exposes the rest of the
+    # identifier (a backtick, a quote) to the other alternatives
+    WS = set(' \t\r\n\x0c')
+    _seen_esc = set()
+    for _, lx in role_lexeme(g, 'EscapedIdentifier'):
+        if lx.name in _seen_esc:
+            continue
+        _seen_esc.add(lx.name)
+        ps_ = parts_of(lx)
+        ekey = '%s:%s' % (g.crate, lx.name)
+        if len(ps_) != 2 or lit_of(ps_[0]) != '\\':
+            r.undecided(ekey + ':shape', W(lx), '%s is not backslash + one character class' % lx.name)
+            continue
+        body_ = ps_[1]
+        while body_.get('op') in ('many1', 'opt', 'many0'):
+            body_ = body_['p']
+        stops = neg_class(body_)
+        accepted = None
+        if stops is None and body_.get('op') == 'prim' and body_.get('name') in ('take_while1', 'take_while', 'take_till1', 'take_till') and body_.get('args'):
+            a0 = body_['args'][0]
+            from rules.x_split import CHAR_PRED
+            if a0.get('k') == 'closure' and a0['body'].get('k') == 'mcall' and a0['body']['m'] in CHAR_PRED and not a0['body']['args']:
+                pred = CHAR_PRED[a0['body']['m']]
+                univ = [chr(i) for i in range(1, 128)] + ['\u00e9', '\u3042']
+                acc = {c for c in univ if pred(c)}
+                if body_['name'].startswith('take_till'):
+                    acc = set(univ) - acc
+                accepted = acc
+                stops = set(univ) - acc
+        r.inst(ekey, {'lexeme': lx.name, 'stops_at': ''.join(sorted(stops)).encode('unicode_escape').decode()[:60] if stops is not None else None})
+        if stops is None:
+            r.undecided(ekey + ':class', W(lx), '%s: the character class after the backslash is not a literal set or a known character predicate' % lx.name)
+            continue
+        extra = sorted(stops - WS)
+        if extra:
+            r.fail('%s:stops-before-white-space' % ekey, W(lx),
+                   '%s ends an escaped identifier at %s, which is not white space: the rest of the identifier is handed to the other alternatives of the partition '
+                   '(a backtick in it becomes a macro usage, a quote opens a string) or, right after the backslash, nothing can parse' %
+                   (lx.name, ', '.join(repr(c_) for c_ in extra[:5]) + (' ...' if len(extra) > 5 else '')))
+        if not (stops & {' ', '\n'}) :
+            r.fail('%s:runs-past-white-space' % ekey, W(lx), '%s does not stop at blank / newline' % lx.name)
     multi = {x[0] for x in firsts if len(x) >= 2}
     single = {x[0] for x in firsts if len(x) == 1}
     for c_ in sorted((multi - single) & cls):
